@@ -366,6 +366,35 @@ def check(ctx):
            "both vectors' NA masks are compared and the non-missing elements of each are compared with each other" if ok else
            "equal does not compare the two NA masks (or indexes both vectors with one mask): a missing value on one side matches "
            "any value on the other and equal is no longer symmetric", clause="equal is an equivalence relation that treats missing values as equal to each other")
+    # element-wise comparison happens only between vectors of the same length (NumPy would broadcast a length-1 vector)
+    cmp_rets = [r for r in body_nodes(eq.node) if isinstance(r, ast.Return) and r.value is not None
+                and any(isinstance(x, ast.Subscript) for x in ast.walk(r.value))]
+    for r in cmp_rets:
+        fx = facts_at(eq, r)
+        okl = any((k == "T" and ("length ==" in t or "len(" in t and "==" in t) and S0 in t and O0 in t) or
+                  (k == "F" and ("length !=" in t) and S0 in t and O0 in t) for k, t in fx)
+        ctx.ob("NA-flow", eq, "elements are compared only between vectors of equal length", r, okl,
+               "the comparison is reached only when both lengths are equal" if okl else
+               "equal compares element-wise without having checked the lengths: NumPy broadcasts a length-1 vector, so [1] equals [1, 1]",
+               clause="equal is an equivalence relation")
+    # dates are recognised only when there ARE element types: an all-missing sequence has none
+    for r in [n for n in body_nodes(std.node) if isinstance(n, ast.Return)]:
+        lp = std.module.parent.get(r)
+        inloop = False
+        while lp is not None and lp is not std.node:
+            if isinstance(lp, ast.For) and "TYPE_CONVERSIONS" in norm(lp.iter):
+                inloop = True
+            lp = std.module.parent.get(lp)
+        if not inloop:
+            continue
+        fx = facts_at(std, r)
+        tv = [n.targets[0].id for n in body_nodes(std.node) if isinstance(n, ast.Assign) and isinstance(n.targets[0], ast.Name)
+              and isinstance(n.value, ast.Call) and repo.dotted(std, n.value.func) == "dataiter.util.unique_types"]
+        okt = any(("T", v) in fx or any(k == "T" and t in (f"len({v}) > 0", f"len({v}) >= 1", f"bool({v})") for k, t in fx) for v in tv)
+        ctx.ob("SIB-pred", std, f"{norm(r)[:60]} only for a non-empty set of element types", r, okt,
+               "an all-missing sequence (no element types) is not taken for dates" if okt else
+               "all(x == date for x in types) is vacuously true for an EMPTY type set: a sequence of only None/NaN becomes a "
+               "datetime64 vector of NaT instead of an object vector of None", clause="None otherwise")
     tl = repo.fn(f"{VEC}.tolist")
     rets = [n for n in body_nodes(tl.node) if isinstance(n, ast.Return)]
     ok = len(rets) == 1 and norm(rets[0].value) == f"np.where({tl.params[0]}.is_na(), None, {tl.params[0]}).tolist()"
